@@ -640,7 +640,7 @@ impl Check for C19 {
         vec!["redb 3.0.0 is the only v3-format release available offline".into(), "a panic inside redb 3.0.0 while reading a file written by this tree counts as 'cannot be read'".into()]
     }
     fn plan(&self, tier: Tier) -> Plan {
-        Plan { cases: tier.pick(300, 10_000), max_recs: tier.pick(80, 140), max_shrink_iters: 600, workers: 16 }
+        Plan { cases: tier.pick(2_500, 60_000), max_recs: tier.pick(80, 140), max_shrink_iters: 600, workers: 16 }
     }
     fn run(&self, tape: &Tape, want_sample: bool) -> Result<CaseOut, Failure> {
         EXCLUDED_OK_FALSE.with(|c| c.set(0));
